@@ -1,207 +1,64 @@
-//! L3 harnesses: real `step` / `execute` / `Hook::run_functions` / hook registration (C11, C12),
-//! real `add_trace` and renderers (C18), real brk / pipe hook closures (C13, C14).
-#![allow(dead_code, static_mut_refs)]
+//! L3 step variant: real `step` / `execute` / `set_max_instructions` (execute.rs) against the contracts of the
+//! decoder, the dispatcher and the hook layer (kani/model/l3).  Loop-free => complete (C11, step half of C12).
+#![allow(dead_code)]
 use crate::auto::generated::SupportedMnemonic;
-use crate::axecutor::{AbstractHeap, Area, Axecutor, MachineState, Script, AREA, NAREA};
-use crate::helpers::errors::AxError;
-use crate::helpers::syscalls::SyscallState;
-use crate::model::fmap::HashMap;
-use crate::state::hooks::{HookProcessor, HookResult};
-use iced_x86::{Code, Instruction};
-use std::error::Error;
+use crate::axecutor::Axecutor;
+use crate::harness::l3common::{empty_ax, same, snap};
+use iced_x86::{Code, Instruction, Mnemonic};
+use std::convert::TryInto;
 
-// ------------------------------------------------------------------------------------------------
-// instrumented native hooks: outcome scripted by the harness, every invocation logged
-// ------------------------------------------------------------------------------------------------
-pub const MAXLOG: usize = 8;
-#[derive(Clone, Copy)]
-pub struct LogEntry {
-    pub id: u8,
-    pub rip: u64,
-    pub count: u64,
-    pub running: bool,
-    pub finished_before: bool,
-    pub dispatch_calls: u8,
-}
-static mut LOG: [LogEntry; MAXLOG] = [LogEntry { id: 0, rip: 0, count: 0, running: false, finished_before: false, dispatch_calls: 0 }; MAXLOG];
-use crate::axecutor::HOOK_LOG_LEN as LOG_LEN;
-/// outcome per hook id: 0 Unhandled, 1 Handled, 2 stop() + Unhandled, 3 Err, 4 stop() + Handled, 5 try to register a hook, then Unhandled
-static mut OUTCOME: [u8; 8] = [0; 8];
-static mut REGISTER_RESULT_OK: [bool; 8] = [false; 8];
-/// a hook may modify the machine: it writes this value to RAX
-static mut HOOK_RAX: [u64; 8] = [0; 8];
-
-
-fn hook_body(id: u8, ax: &mut Axecutor) -> Result<HookResult, Box<dyn Error>> {
-    unsafe {
-        if (LOG_LEN as usize) < MAXLOG {
-            LOG[LOG_LEN as usize] = LogEntry {
-                id,
-                rip: ax.state.regs[0],
-                count: ax.state.executed_instructions_count,
-                running: ax.hooks.running,
-                finished_before: ax.state.finished,
-                dispatch_calls: ax.script.dispatch_calls,
-            };
-        }
-        LOG_LEN += 1;
-        ax.state.regs[1] = HOOK_RAX[id as usize];
-        match OUTCOME[id as usize] {
-            0 => Ok(HookResult::Unhandled),
-            1 => Ok(HookResult::Handled),
-            2 => {
-                ax.stop();
-                Ok(HookResult::Unhandled)
-            }
-            3 => Err(Box::new(AxError::from(""))),
-            4 => {
-                ax.stop();
-                Ok(HookResult::Handled)
-            }
-            _ => {
-                // "never from inside one": registration while a hook is executing must be refused
-                let r = ax.hook_before_mnemonic_native(SupportedMnemonic::Nop, H7);
-                REGISTER_RESULT_OK[id as usize] = r.is_ok();
-                Ok(HookResult::Unhandled)
-            }
-        }
-    }
-}
-pub static H0: &(dyn Fn(&mut Axecutor, SupportedMnemonic) -> Result<HookResult, Box<dyn Error>> + Sync) = &|ax, _m| hook_body(0, ax);
-pub static H1: &(dyn Fn(&mut Axecutor, SupportedMnemonic) -> Result<HookResult, Box<dyn Error>> + Sync) = &|ax, _m| hook_body(1, ax);
-pub static H2: &(dyn Fn(&mut Axecutor, SupportedMnemonic) -> Result<HookResult, Box<dyn Error>> + Sync) = &|ax, _m| hook_body(2, ax);
-pub static H3: &(dyn Fn(&mut Axecutor, SupportedMnemonic) -> Result<HookResult, Box<dyn Error>> + Sync) = &|ax, _m| hook_body(3, ax);
-pub static H4: &(dyn Fn(&mut Axecutor, SupportedMnemonic) -> Result<HookResult, Box<dyn Error>> + Sync) = &|ax, _m| hook_body(4, ax);
-pub static H5: &(dyn Fn(&mut Axecutor, SupportedMnemonic) -> Result<HookResult, Box<dyn Error>> + Sync) = &|ax, _m| hook_body(5, ax);
-pub static H7: &(dyn Fn(&mut Axecutor, SupportedMnemonic) -> Result<HookResult, Box<dyn Error>> + Sync) = &|ax, _m| hook_body(7, ax);
-
-fn hook(k: usize) -> &'static (dyn Fn(&mut Axecutor, SupportedMnemonic) -> Result<HookResult, Box<dyn Error>>) {
-    match k {
-        0 => H0,
-        1 => H1,
-        2 => H2,
-        3 => H3,
-        4 => H4,
-        _ => H5,
-    }
-}
-
-pub fn empty_ax() -> Axecutor {
-    let no = Area { start: 0, length: 0, data: [0; AREA], access: 0, present: false };
-    Axecutor {
-        stack_top: kani::any(),
-        code_end_addr: kani::any(),
-        state: MachineState {
-            regs: kani::any(),
-            rflags: kani::any(),
-            fs: kani::any(),
-            gs: kani::any(),
-            finished: false,
-            executed_instructions_count: 0,
-            max_instructions: None,
-            syscalls: SyscallState::default(),
-            call_stack: Vec::new(),
-            trace: Vec::new(),
-            areas: [no; NAREA],
-        },
-        hooks: HookProcessor::default(),
-        symbol_table: HashMap::new(),
-        script: Script {
-            decode_ok: true,
-            instr: Instruction::default(),
-            dispatch_outcome: 0,
-            dispatch_new_rip: 0,
-            dispatch_new_rax: 0,
-            dispatch_calls: 0,
-            rip_at_dispatch: 0,
-            count_at_dispatch: 0,
-            log_len_at_dispatch: 0,
-        },
-        heap: AbstractHeap { present: false, start: 0, length: 0, anywhere_calls: 0, resize_calls: 0, last_resize_start: 0, last_resize_size: 0 },
-    }
-}
-
-/// the instruction the decoder contract hands to step(): one of a few representative codes
-/// (step() only looks at the mnemonic, next_ip and - through the hook table - the SupportedMnemonic)
-fn scripted_instruction(which: u8) -> (Instruction, bool, bool) {
-    // `which` is fixed per harness: a symbolic mnemonic would make the hook-table lookup (and with it the
-    // length of the hook list) symbolic and the unrolled hook loop explode
+/// the instruction the decoder contract hands to step(): `which` selects a representative code
+/// (step() looks at the mnemonic, next_ip and - through the hook table - the SupportedMnemonic only)
+fn scripted_instruction(which: u8) -> (Instruction, bool) {
     let mut i = Instruction::default();
-    // (supported mnemonic?, is it the mnemonic the hooks are registered for?)
-    let (code, supported, hooked) = match which {
-        0 => (Code::Nopd, true, true),
-        1 => (Code::Syscall, true, false),
-        2 => (Code::Add_rm64_r64, true, false),
-        _ => (Code::Aaa, false, false),
+    let (code, supported) = match which {
+        0 => (Code::Nopd, true),
+        1 => (Code::Syscall, true),
+        2 => (Code::Add_rm64_r64, true),
+        3 => (Code::Retnq, true),
+        _ => (Code::Aaa, false),
     };
     i.set_code(code);
     i.set_next_ip(kani::any());
     let len: u8 = kani::any();
     kani::assume(len >= 1 && len <= 15);
     i.set_len(len as usize);
-    (i, supported, hooked)
+    (i, supported)
 }
 
-#[derive(Clone, Copy)]
-struct Snap {
-    regs: [u64; 17],
-    finished: bool,
-    count: u64,
-    running: bool,
-    trace_len: usize,
-    cs_len: usize,
-}
-fn snap(ax: &Axecutor) -> Snap {
-    Snap { regs: ax.state.regs, finished: ax.state.finished, count: ax.state.executed_instructions_count, running: ax.hooks.running,
-        trace_len: ax.state.trace.len(), cs_len: ax.state.call_stack.len() }
-}
-fn regs_eq(a: &[u64; 17], b: &[u64; 17]) -> bool {
-    // the skeleton and the instrumented hooks only ever write RIP and RAX; the other slots are compared too,
-    // unrolled by hand to keep the unwinding bound of the harness small
-    a[0] == b[0] && a[1] == b[1] && a[2] == b[2] && a[3] == b[3] && a[4] == b[4] && a[5] == b[5] && a[6] == b[6] && a[7] == b[7]
-        && a[8] == b[8] && a[9] == b[9] && a[10] == b[10] && a[11] == b[11] && a[12] == b[12] && a[13] == b[13] && a[14] == b[14]
-        && a[15] == b[15] && a[16] == b[16]
-}
-fn same(a: &Snap, b: &Snap) -> bool {
-    regs_eq(&a.regs, &b.regs) && a.finished == b.finished && a.count == b.count && a.running == b.running && a.trace_len == b.trace_len && a.cs_len == b.cs_len
-}
-
-/// C11 + C12 for one step with `nb` before-hooks and `na` after-hooks registered for NOP (bound: nb, na <= 3)
-pub fn check_step(nb: usize, na: usize, which: u8) {
-    let mut ax = empty_ax();
-    unsafe {
-        LOG_LEN = 0;
-        let mut k = 0;
-        while k < 8 {
-            OUTCOME[k] = kani::any();
-            kani::assume(OUTCOME[k] <= 5);
-            HOOK_RAX[k] = kani::any();
-            REGISTER_RESULT_OK[k] = false;
-            k += 1;
-        }
-    }
-    // registration through the real API, while no hook is executing: must succeed
-    let mut k = 0;
-    let mut reg_ok = true;
-    while k < nb {
-        reg_ok = reg_ok && ax.hook_before_mnemonic_native(SupportedMnemonic::Nop, hook(k)).is_ok();
-        k += 1;
-    }
-    k = 0;
-    while k < na {
-        reg_ok = reg_ok && ax.hook_after_mnemonic_native(SupportedMnemonic::Nop, hook(3 + k)).is_ok();
-        k += 1;
-    }
-    // hooks of another mnemonic: must never run for the scripted instructions (none of which is INT3)
-    reg_ok = reg_ok && ax.hook_before_mnemonic_native(SupportedMnemonic::Int3, H7).is_ok();
-
-    let (instr, supported, hooked) = scripted_instruction(which);
+fn script(ax: &mut Axecutor, which: u8) -> (Instruction, bool, bool) {
+    let (instr, supported) = scripted_instruction(which);
     ax.script.instr = instr;
     ax.script.decode_ok = kani::any();
     ax.script.dispatch_outcome = kani::any();
     kani::assume(ax.script.dispatch_outcome <= 2);
     ax.script.dispatch_new_rip = kani::any();
     ax.script.dispatch_new_rax = kani::any();
+    // hooks: registered for this instruction's mnemonic, for another one, or not at all
+    let hk: u8 = kani::any();
+    kani::assume(hk <= 2);
+    let own: Option<SupportedMnemonic> = match TryInto::<SupportedMnemonic>::try_into(instr.mnemonic()) {
+        Ok(m) => Some(m),
+        Err(_) => None,
+    };
+    let hooked = hk == 0 && own.is_some();
+    ax.script.hooks_registered_for = match hk {
+        0 => own,
+        1 => Some(SupportedMnemonic::Int3),
+        _ => None,
+    };
+    ax.script.hook_writes_rax = kani::any();
+    ax.script.hook_rax = kani::any();
+    ax.script.hook_writes_rip = kani::any();
+    ax.script.hook_rip = kani::any();
+    ax.script.hook_stops = kani::any();
+    ax.script.hook_fails = kani::any();
+    (instr, supported, hooked)
+}
+
+pub fn check_step(which: u8) {
+    let mut ax = empty_ax();
+    let (instr, supported, hooked) = script(&mut ax, which);
     ax.state.finished = kani::any();
     ax.state.executed_instructions_count = kani::any();
     kani::assume(ax.state.executed_instructions_count < u64::MAX);
@@ -218,217 +75,85 @@ pub fn check_step(nb: usize, na: usize, which: u8) {
         Ok(b) => b,
         Err(_) => false,
     };
-    let (log, n_log) = unsafe { (LOG, LOG_LEN as usize) };
-    let outcome = unsafe { OUTCOME };
+    let sc = ax.script;
     kani::cover!(is_ok, "COVER|ok");
     kani::cover!(!is_ok, "COVER|err");
-    kani::cover!(n_log >= 2, "COVER|two-hooks-ran");
+    kani::cover!(is_ok && sc.hook_phase_calls[0] == 1 && sc.hook_phase_calls[1] == 1, "COVER|both-hook-phases-ran");
 
     let blocked = pre.finished || (has_limit && pre.count >= limit);
-    let ran_dispatch = ax.script.dispatch_calls == 1;
-    // model of the hook protocol: which hooks must have run, in order
-    let hooks_active = hooked && supported && !blocked && ax.script.decode_ok;
-    let mut want: [u8; MAXLOG] = [0; MAXLOG];
-    let mut n_want = 0usize;
-    let mut before_err = false;
-    let mut stopped = false;
-    if hooks_active {
-        let mut k = 0;
-        while k < nb {
-            want[n_want] = k as u8;
-            n_want += 1;
-            let o = outcome[k];
-            if o == 3 {
-                before_err = true;
-                break;
-            }
-            if o == 2 || o == 4 {
-                stopped = true;
-            }
-            if o == 1 || o == 2 || o == 4 {
-                break;
-            }
-            k += 1;
-        }
-    }
-    let dispatch_expected = !blocked && ax.script.decode_ok && supported && !before_err;
-    let dispatch_err = dispatch_expected && ax.script.dispatch_outcome == 1;
-    let mut after_err = false;
-    if hooks_active && dispatch_expected && !dispatch_err {
-        let mut k = 0;
-        while k < na {
-            want[n_want] = (3 + k) as u8;
-            n_want += 1;
-            let o = outcome[3 + k];
-            if o == 3 {
-                after_err = true;
-                break;
-            }
-            if o == 2 || o == 4 {
-                stopped = true;
-            }
-            if o == 1 || o == 2 || o == 4 {
-                break;
-            }
-            k += 1;
-        }
-    }
-    let n_before_want = {
-        let mut c = 0;
-        let mut k = 0;
-        while k < n_want {
-            if want[k] < 3 {
-                c += 1;
-            }
-            k += 1;
-        }
-        c
-    };
-    let should_err = blocked || !ax.script.decode_ok || !supported || before_err || dispatch_err || after_err;
+    let reaches_hooks = !blocked && sc.decode_ok && supported;
+    let before_runs = reaches_hooks && hooked;
+    let before_err = before_runs && sc.hook_fails[0];
+    let dispatch_expected = reaches_hooks && !before_err;
+    let dispatch_err = dispatch_expected && sc.dispatch_outcome == 1;
+    let after_runs = dispatch_expected && !dispatch_err && hooked;
+    let after_err = after_runs && sc.hook_fails[1];
+    let should_err = blocked || !sc.decode_ok || !supported || before_err || dispatch_err || after_err;
+    let stopped = (before_runs && sc.hook_stops[0]) || (after_runs && sc.hook_stops[1]);
 
     let sel: u8 = kani::any();
     match sel {
-        0 => assert!(reg_ok, "OBL|C12|registration-outside-hooks-succeeds"),
         // ---------------------------------------------------------------- C11
-        1 => assert!(!blocked || (!is_ok && same(&pre, &post) && !ran_dispatch && n_log == 0), "OBL|C11|finished-or-limit-step-fails-and-changes-nothing"),
-        2 => assert!(blocked || ax.script.decode_ok || (!is_ok && same(&pre, &post)), "OBL|C11|fetch-error-changes-nothing"),
+        1 => assert!(!blocked || (!is_ok && same(&pre, &post) && sc.dispatch_calls == 0 && sc.hook_phase_calls[0] == 0 && sc.hook_phase_calls[1] == 0),
+            "OBL|C11|finished-or-limit-step-fails-and-changes-nothing"),
+        2 => assert!(blocked || sc.decode_ok || (!is_ok && same(&pre, &post) && sc.dispatch_calls == 0), "OBL|C11|fetch-error-changes-nothing"),
         3 => assert!(is_ok == !should_err, "OBL|C11|ok-iff-no-error-source"),
-        4 => assert!(post.count == pre.count + (is_ok as u64), "OBL|C11|count-plus-one-iff-ok"),
-        5 => assert!(!ran_dispatch || ax.script.rip_at_dispatch == instr.next_ip(), "OBL|C11|rip-advanced-before-dispatch"),
-        6 => assert!(ax.script.dispatch_calls == dispatch_expected as u8, "OBL|C11|exactly-one-instruction-per-step"),
+        // the count advances exactly when an instruction was executed (dispatched without error); in particular a
+        // successful step adds exactly one and a step that fails before or in the instruction adds nothing
+        4 => assert!(post.count == pre.count + ((dispatch_expected && !dispatch_err) as u64) && (!is_ok || post.count == pre.count + 1), "OBL|C11|count-plus-one-iff-instruction-executed"),
+        5 => assert!(sc.dispatch_calls == 0 || (sc.rip_at_dispatch == (if before_runs && sc.hook_writes_rip[0] { sc.hook_rip[0] } else { instr.next_ip() })),
+            "OBL|C11|rip-advanced-before-dispatch"),
+        6 => assert!(sc.dispatch_calls == dispatch_expected as u8, "OBL|C11|exactly-one-instruction-per-step"),
         7 => {
-            // finish conditions after a successful step
             if is_ok {
-                let rip_after_dispatch = ax.script.dispatch_new_rip;
-                let want_fin = rip_after_dispatch == ax.code_end_addr || ax.script.dispatch_outcome == 2 || stopped;
+                // RIP that the finish test must look at: what dispatch left (code end is tested before the after hooks)
+                let want_fin = sc.dispatch_new_rip == ax.code_end_addr || sc.dispatch_outcome == 2 || stopped;
                 assert!(post.finished == want_fin && ret == !post.finished, "OBL|C11|finished-iff-code-end-or-top-level-ret-or-stop");
             }
         }
         8 => {
-            // without control transfer RIP is left at the following instruction: the skeleton itself never
-            // touches RIP after the pre-advance (dispatch and hooks are the only writers)
-            if is_ok && !hooks_active {
-                assert!(post.regs[0] == ax.script.dispatch_new_rip, "OBL|C11|skeleton-does-not-touch-rip-after-dispatch");
+            if is_ok && !after_runs {
+                assert!(post.regs[0] == sc.dispatch_new_rip, "OBL|C11|skeleton-does-not-touch-rip-after-dispatch");
             }
         }
-        // ---------------------------------------------------------------- C12
-        9 => {
-            let mut okk = n_log == n_want;
-            let mut k = 0;
-            while k < MAXLOG {
-                if k < n_want && k < n_log {
-                    okk = okk && log[k].id == want[k];
-                }
-                k += 1;
+        // ---------------------------------------------------------------- C12 (step's side of the hook protocol)
+        9 => assert!(sc.hook_phase_calls[0] == before_runs as u8 && sc.hook_phase_calls[1] == after_runs as u8,
+            "OBL|C12|hook-phases-run-exactly-when-registered-for-this-mnemonic"),
+        10 => assert!((!before_runs || (sc.dispatch_calls_seen_by_hooks[0] == 0 && sc.rip_seen_by_hooks[0] == instr.next_ip()))
+            && (!after_runs || sc.dispatch_calls_seen_by_hooks[1] == 1), "OBL|C12|before-precedes-and-after-follows-the-instruction-rip-pre-advanced"),
+        11 => {
+            // modifications made by the last hook phase persist
+            if is_ok && after_runs && sc.hook_writes_rax[1] {
+                assert!(post.regs[1] == sc.hook_rax[1], "OBL|C12|hook-modifications-persist");
             }
-            assert!(okk, "OBL|C12|hooks-run-in-order-each-once-until-handled-stop-or-error");
         }
-        10 => {
-            // bracketing: before hooks saw no dispatch yet, after hooks saw exactly one; all saw RIP pre-advanced
-            // (before hooks) and the running flag set
-            let mut okk = true;
-            let mut k = 0;
-            while k < MAXLOG {
-                if k < n_log {
-                    let l = log[k];
-                    if l.id < 3 {
-                        okk = okk && l.dispatch_calls == 0 && (k > 0 || l.rip == instr.next_ip());
-                    } else if l.id < 6 {
-                        okk = okk && l.dispatch_calls == 1;
-                    }
-                    okk = okk && l.running;
-                }
-                k += 1;
-            }
-            assert!(okk, "OBL|C12|before-hooks-precede-and-after-hooks-follow-the-instruction");
-        }
-        11 => assert!(!post.running, "OBL|C12|no-hook-running-after-step"),
         12 => {
-            // a hook's modification persists: the last writer of RAX wins
-            if is_ok && n_log > 0 && n_want > n_before_want {
-                let last = log[n_log - 1].id as usize;
-                assert!(post.regs[1] == unsafe { HOOK_RAX[last] }, "OBL|C12|hook-modifications-persist");
-            }
-        }
-        13 => {
-            // stop: no error, the run ends, and a later step fails without executing anything
             if stopped && !should_err {
                 assert!(is_ok && !ret && post.finished, "OBL|C12|stop-ends-run-without-error");
             }
         }
-        14 => assert!(!(before_err || after_err) || !is_ok, "OBL|C12|failing-hook-fails-the-step"),
-        15 => {
-            // hooks registered for INT3 never run for NOP/SYSCALL/ADD
-            let mut okk = true;
-            let mut k = 0;
-            while k < MAXLOG {
-                if k < n_log {
-                    okk = okk && log[k].id != 7;
-                }
-                k += 1;
+        13 => assert!(!(before_err || after_err) || !is_ok, "OBL|C12|failing-hook-fails-the-step"),
+        14 => {
+            // a step on a finished machine: fails, runs no hook and no instruction, changes nothing
+            if is_ok && post.finished {
+                let d0 = ax.script.dispatch_calls;
+                let h0 = ax.script.hook_phase_calls;
+                let p2 = snap(&ax);
+                let r2 = ax.step();
+                let q2 = snap(&ax);
+                assert!(r2.is_err() && same(&p2, &q2) && ax.script.dispatch_calls == d0 && ax.script.hook_phase_calls[0] == h0[0] && ax.script.hook_phase_calls[1] == h0[1],
+                    "OBL|C11|step-after-finish-fails-and-changes-nothing");
             }
-            assert!(okk, "OBL|C12|hooks-of-other-mnemonics-never-run");
-        }
-        16 => {
-            // registration from inside a hook is refused
-            let mut okk = true;
-            let mut k = 0;
-            while k < 6 {
-                okk = okk && !unsafe { REGISTER_RESULT_OK[k] };
-                k += 1;
-            }
-            assert!(okk, "OBL|C12|registration-from-inside-a-hook-is-refused");
         }
         _ => {}
     }
 }
 
-/// what is possible after a step: registration works again (also after a failing hook); a step on a finished
-/// machine fails, runs no hook and no instruction and changes nothing
-pub fn check_after_step(which: u8) {
-    let mut ax = empty_ax();
-    unsafe {
-        LOG_LEN = 0;
-        OUTCOME[0] = kani::any();
-        kani::assume(OUTCOME[0] <= 4);
-        OUTCOME[3] = kani::any();
-        kani::assume(OUTCOME[3] <= 4);
-    }
-    let _ = ax.hook_before_mnemonic_native(SupportedMnemonic::Nop, hook(0));
-    let _ = ax.hook_after_mnemonic_native(SupportedMnemonic::Nop, hook(3));
-    let (instr, _supported, _hooked) = scripted_instruction(which);
-    ax.script.instr = instr;
-    ax.script.decode_ok = kani::any();
-    ax.script.dispatch_outcome = kani::any();
-    kani::assume(ax.script.dispatch_outcome <= 2);
-    ax.script.dispatch_new_rip = kani::any();
-    let res = ax.step();
-    let is_ok = res.is_ok();
-    let fin = ax.state.finished;
-    let sel: bool = kani::any();
-    if sel {
-        let r = ax.hook_after_mnemonic_native(SupportedMnemonic::Nop, H7);
-        assert!(r.is_ok(), "OBL|C12|registration-possible-after-step-even-after-hook-error");
-    } else if fin {
-        unsafe { LOG_LEN = 0 };
-        let d0 = ax.script.dispatch_calls;
-        let p2 = snap(&ax);
-        let r2 = ax.step();
-        let q2 = snap(&ax);
-        assert!(r2.is_err() && same(&p2, &q2) && ax.script.dispatch_calls == d0 && unsafe { LOG_LEN } == 0, "OBL|C11|step-after-finish-fails-and-changes-nothing");
-        let _ = is_ok;
-    }
-}
-
-/// C11: execute() == step() until the first Ok(false) / Err.  Bounded: the script finishes the run within 3 steps.
+/// C11: execute() == step() until the first Ok(false) / Err.  Bounded: the limit is at most 2, so the loop runs at most 3 times.
 pub fn check_execute() {
     let mut ax = empty_ax();
-    let (instr, _s, _h) = scripted_instruction(2);
-    ax.script.instr = instr;
-    ax.script.decode_ok = kani::any();
-    ax.script.dispatch_outcome = kani::any();
-    kani::assume(ax.script.dispatch_outcome <= 2);
-    ax.script.dispatch_new_rip = kani::any();
+    let (_instr, _s, _h) = script(&mut ax, 2);
+    ax.script.hook_fails = [false; 2];
     let limit: u64 = kani::any();
     kani::assume(limit <= 2);
     ax.set_max_instructions(limit);
@@ -436,19 +161,10 @@ pub fn check_execute() {
     let n = ax.state.executed_instructions_count;
     let sel: u8 = kani::any();
     match sel {
-        // exactly N instructions run under limit N, then the next step fails
         0 => assert!(n <= limit, "OBL|C11|never-more-than-limit-instructions"),
-        1 => {
-            // execute returns Ok exactly when a step returned Ok(false) i.e. the machine finished
-            assert!(r.is_ok() == ax.state.finished || r.is_err(), "OBL|C11|execute-ok-only-when-finished");
-        }
-        2 => {
-            if r.is_ok() {
-                assert!(ax.state.finished, "OBL|C11|execute-ok-implies-finished");
-            }
-        }
+        1 => assert!(!r.is_ok() || ax.state.finished, "OBL|C11|execute-ok-implies-finished"),
+        2 => assert!(n as u8 == ax.script.dispatch_calls || ax.script.dispatch_outcome == 1, "OBL|C11|count-equals-instructions-dispatched"),
         _ => {
-            // stepping once more after execute() returned: fails, nothing changes
             let p = snap(&ax);
             let d0 = ax.script.dispatch_calls;
             let r2 = ax.step();
